@@ -217,6 +217,7 @@ def do_check(prop, tier, base_seed, workers, runs=None, wall=None, no_selftest=F
     from .engine import load_world
     from .shrink import shrink
     t0 = time.monotonic()
+    os.environ["VERIF_TIER"] = tier
     compat.import_repo()
     World = load_world(prop)
     plan = dict(TIERS[prop][tier])
